@@ -399,6 +399,18 @@ _BIN = {ast.Add: lambda a, b: a + b, ast.Sub: lambda a, b: a - b, ast.Mult: lamb
 _CMPS = {ast.Eq: lambda a, b: a == b, ast.NotEq: lambda a, b: a != b, ast.Lt: lambda a, b: a < b, ast.LtE: lambda a, b: a <= b, ast.Gt: lambda a, b: a > b, ast.GtE: lambda a, b: a >= b}
 
 
+class _DefaultDict(dict):
+    """collections.defaultdict(factory) where a rule models it (see _tp_run): a missing key is answered by evaluating the factory"""
+
+    def __init__(self, make):
+        super().__init__()
+        self.make = make
+
+    def __missing__(self, k):
+        self[k] = self.make()
+        return self[k]
+
+
 def _opaque(v):
     return isinstance(v, (_T, _O, _Fn, _Cls, _PyM, _Partial))
 
@@ -414,6 +426,7 @@ class _Interp:
         self.model = None  # optional callable(path, args, kwargs) -> value the rule supplies for an unmodelled call (NotImplemented: none)
         self.frames = [[]]  # per statement in execution (one per active routine and enclosing compound statement): the objects whose fields its own expressions read
         self.skipped = []  # (loop, value of its iterable) of the loops that were skipped because the evaluator does not model the collection
+        self.eager_generators, self.yields = False, []  # see call_fn
         self.raised = None  # the exception value with which the outermost evaluated routine ended (it is reported as _Undecided; a rule that ASKS whether the routine raises reads this)
 
     # -- decisions on unknown values ---------------------------------------------------------------------------------------------------------------
@@ -478,6 +491,12 @@ class _Interp:
     def e_Name(self, e, env):
         return self.lookup(e.id, env)
 
+    def e_Yield(self, e, env):
+        if not getattr(self, "yields", None):
+            raise _Undecided("yield outside a generator that is evaluated eagerly")
+        self.yields[-1].append(None if e.value is None else self.ev(e.value, env))
+        return None
+
     def e_Await(self, e, env):
         return self.ev(e.value, env)
 
@@ -533,6 +552,8 @@ class _Interp:
             except Exception as x:
                 raise _Undecided(f"{short(e, 50)}: {type(x).__name__}")
         k = self.ev(e.slice, env)
+        if isinstance(v, dict) and isinstance(k, _O) and (k in v or isinstance(v, _DefaultDict)):  # a representative object used as a key (objects hash by identity)
+            return v[k]
         if isinstance(v, _T) or _opaque(k):
             return _T("item", v, k)
         try:
@@ -971,7 +992,18 @@ class _Interp:
                 if isinstance(fn, ast.Lambda):
                     return self.ev(fn.body, env)
                 if any(isinstance(x, (ast.Yield, ast.YieldFrom)) for x in walk_body(fn)):
-                    return _T("call", _T("global", fn.name), tuple(args))
+                    if not getattr(self, "eager_generators", False) or any(isinstance(x, ast.YieldFrom) for x in walk_body(fn)):
+                        return _T("call", _T("global", fn.name), tuple(args))
+                    # a rule that only asks WHAT a generator hands out (not when) evaluates it where it is created: the list of the yielded values
+                    self.yields.append([])
+                    try:
+                        try:
+                            self.run(fn.body, env)
+                        except _Ret:
+                            pass
+                        return list(self.yields[-1])
+                    finally:
+                        self.yields.pop()
                 try:
                     self.run(fn.body, env)
                 except _Ret as r:
@@ -1540,12 +1572,24 @@ def flush_no_fallible_gap(chk, rid, met):
     g = cfg_of(fl)
     bi = [n for n in dict.fromkeys(sends) if n is not None and source.enclosing_func(n) is fl]
     rs = [n for n in walk_body(fl) if isinstance(n, ast.Assign) and any(is_self_attr(t, es.buf) for t in n.targets)]
+    site, in_helper = (bi[0] if bi else None), []
+    if not bi:
+        # the send sits in a helper method that flush calls: its place in flush is the call of that helper; what the helper does on the client after the send counts as 'between'
+        for n in dict.fromkeys(sends):
+            h = source.enclosing_func(n) if n is not None else None
+            calls = [c for c in walk_body(fl) if h is not None and isinstance(c, ast.Call) and is_self_attr(c.func, h.name)]
+            if len(calls) == 1 and isinstance(n.func, ast.Attribute):
+                bi, site = [n], calls[0]
+                hg = cfg_of(h)
+                in_helper = [c for c in walk_body(h) if isinstance(c, ast.Call) and isinstance(c.func, ast.Attribute) and u(c.func.value) == u(n.func.value) and c is not n
+                             and hg.path_exists(hg.node_of(n), hg.node_of(c), edge_ok=hg.normal_edge)]
+                break
     if not bi or not rs or not isinstance(bi[0].func, ast.Attribute):
         raise AnchorMissing("bulk send / buffer reset in EsMetricsStore.flush")
     client = u(bi[0].func.value)
     other = [n for n in walk_body(fl) if isinstance(n, ast.Call) and isinstance(n.func, ast.Attribute) and u(n.func.value) == client and n not in bi]
-    bn, rn_ = g.node_of(bi[0]), g.node_of(rs[0])
-    between = [c for c in other if g.path_exists(bn, g.node_of(c), avoid=[rn_], edge_ok=g.normal_edge) and g.path_exists(g.node_of(c), rn_, edge_ok=g.normal_edge)]
+    bn, rn_ = g.node_of(site), g.node_of(rs[0])
+    between = in_helper + [c for c in other if g.path_exists(bn, g.node_of(c), avoid=[rn_], edge_ok=g.normal_edge) and g.path_exists(g.node_of(c), rn_, edge_ok=g.normal_edge)]
     chk.ob(rid, "no other store-client call between the acknowledged bulk send and emptying the buffer", not between, between[0] if between else rs[0],
            "" if not between else f"`{short(between[0], 50)}` runs while the sent documents are still buffered: if it fails they are sent again by the next flush / close",
            key="esrally/metrics.py:EsMetricsStore.flush:fallible-gap")
@@ -2853,7 +2897,7 @@ def _o79(chk, drv):
 
 
 # ---- O7.11 ---------------------------------------------------------------------------------------------------------------------------------------------------
-def _sample_type_position(drv, arity):
+def _sample_type_position(drv, arity, async_consumer=None):
     """index of the element that carries a metrics.SampleType in the tuples the schedule generator yields: the element read from a property whose returns mention SampleType"""
     props = {f.name for c in drv.classes() for f in drv.methods(c).values() if _is_property(f)
              and any(isinstance(r, ast.Return) and r.value is not None and any(isinstance(x, ast.Attribute) and (dotted(x) or "").split(".")[-2:-1] == ["SampleType"] for x in ast.walk(r.value)) for r in walk_body(f))}
@@ -2862,6 +2906,8 @@ def _sample_type_position(drv, arity):
         ys = [y.value for y in walk_body(f) if isinstance(y, ast.Yield) and isinstance(y.value, ast.Tuple) and len(y.value.elts) == arity]
         if not ys:
             continue
+        if async_consumer is not None and isinstance(f, ast.AsyncFunctionDef) != async_consumer:
+            continue  # an `async for` consumes an asynchronous generator (and a `for` a plain one): other generators yielding tuples of this size are not the schedule
         here = None
         binds = {}
         for n in walk_body(f):
@@ -2956,7 +3002,7 @@ def _o711(chk, drv, ex, holders):
     for c in adds:
         L = source.enclosing(c, (ast.AsyncFor, ast.For))
         targets = (L.target.elts if isinstance(L.target, ast.Tuple) else [L.target]) if L is not None else []
-        pos = _sample_type_position(drv, len(targets)) if targets else []
+        pos = _sample_type_position(drv, len(targets), isinstance(L, ast.AsyncFor)) if targets else []
         a = source.bind_args(c, add_orig).get(P)
         if L is None or len(pos) != 1 or a is None or not isinstance(targets[pos[0]], ast.Name):
             chk.unknown("O7.11", f"request loop / position of the sample type in what the schedule yields / argument for `{P}` not recognised (positions {pos})", c)
@@ -3290,6 +3336,166 @@ def _o713(chk, repo):
         chk.ob("O7.13", what, not bad, call, "; ".join(dict.fromkeys(bad)) if bad else f"{len(leaves)} sub-requests executed, one timing each ({len(runs)} decision sequence(s))", key=key)
 
 
+# ---- O7.14 what add enqueues carries every argument -------------------------------------------------------------------------------------------------------
+_NAMED_BY_PROPERTY = ("task", "client_id", "sample_type", "latency", "service_time", "processing_time")
+
+
+def _o714(chk, drv):
+    """Decided on VALUES: the sampler's add routine is evaluated with one distinct marker per parameter against the queue model; the object it enqueues (built by the evaluated
+    constructor of the sample class, whatever its spelling: positional, keywords, a helper, a dataclass) must hold the marker of EVERY parameter, and where the sample exposes an
+    attribute / accessor with the name of a parameter the property names (task, client id, sample type, the three times) it must answer the marker of that very parameter."""
+    S, q, smp, add, qcalls = _sampler_roles(drv)
+    add_fn = drv.methods(S).get(add.name, add)
+    ps = [p for p in params_of(add_fn)[1:]] + [a.arg for a in add_fn.args.kwonlyargs]
+    if len(ps) < 2:
+        chk.unknown("O7.14", f"`{add.name}` takes the finished sample ({ps}): the place where the sample is built from the request's values was not recognised", add)
+        return
+    try:
+        def make(oracle):
+            qm = _QueueModel([])
+            marks = {p: _T("global", f"arg:{p}") for p in ps}
+            return (qm, marks), lambda: _sampler_eval(drv, S, q, add_fn, qm, [], marks, oracle)
+
+        lost, crossed, seen = {}, [], 0
+        for (qm, marks), (ret, exc, it) in _explore(make):
+            if exc is not None or len(qm.put_calls) != 1:
+                continue  # (judged by O7.1)
+            obj = qm.put_calls[0]
+            if not (isinstance(obj, _O) and obj.cls is not None):
+                raise _Undecided(f"what is enqueued is `{obj!r:.60}`, not an object of a class of the module")
+            seen += 1
+            for p, m in marks.items():
+                if not _mentions(obj, m):
+                    lost[p] = obj
+            for p in _NAMED_BY_PROPERTY:
+                if p not in marks:
+                    continue
+                it2 = _Interp([drv])
+                has = p in obj.f or it2.class_attr(obj.cls, obj.mod, p) is not None
+                if not has:
+                    continue
+                try:
+                    v = it2.call(_Fn(ast.parse(f"lambda o: o.{p}", mode="eval").body, drv), [obj], {}, add_fn)
+                except (_Undecided, _Need):
+                    continue
+                other = [p2 for p2, m2 in marks.items() if p2 != p and v is m2]
+                if other and v is not marks[p]:
+                    crossed.append(f"the sample's `{p}` answers the value `{add.name}` received as `{other[0]}`")
+        if not seen:
+            raise _Undecided("no path of the routine enqueues exactly one object")
+        what = "the sample that is enqueued holds the value of every parameter of add (the dependent timings included)"
+        key = f"{_D}:{S.name}.{add.name}:sample-carries-every-argument"
+        chk.ob("O7.14", what, not lost, add, "; ".join(f"the value handed in as `{p}` is not part of the enqueued {o.name}: it is dropped between the load generator and the post-processor" for p, o in lost.items())
+               or f"{len(ps)} parameters, each held by the enqueued object", key=key)
+        chk.ob("O7.14", "the sample answers under the name of a parameter (task, client id, sample type, latency, service_time, processing_time) the value of that parameter", not crossed, add,
+               "; ".join(dict.fromkeys(crossed)), key=f"{_D}:{S.name}.{add.name}:sample-fields-not-crossed")
+    except (_Undecided, _Need) as x:
+        chk.unknown("O7.14", f"`{add.name}` not evaluated against the queue model: {x}", add)
+
+
+# ---- O7.15 throughput from all samples, whatever their order in the batch -----------------------------------------------------------------------------------
+_TP_BATCHES = (
+    ("samples of one task", "aaaa"),
+    ("samples of two tasks, one task after the other", "aaabb"),
+    ("samples of two tasks of a parallel element, interleaved (shipments of two workers alternate)", "ababa"),
+    ("samples of three tasks, interleaved", "abcabca"),
+)
+
+
+def _tp_samples(pattern):
+    tasks = {c: _O(f"task-{c}", name=f"task-{c}", operation=_O(f"operation-{c}", name=f"op-{c}", type="bulk", meta_data={})) for c in sorted(set(pattern))}
+    out = []
+    for i, c in enumerate(pattern):
+        out.append(_O(f"sample{i}", client_id=i % 2, absolute_time=1000.0 + i, relative_time=10.0 + i, request_start=500.0 + i, task_start=490.0, task=tasks[c], sample_type="normal",
+                      latency=0.5, service_time=0.25, processing_time=0.75, throughput=100.0 + i, total_ops=1 + i, total_ops_unit="docs", time_period=1.0, percent_completed=None,
+                      operation_name=f"op-{c}", operation_type="bulk", operation_meta_data={}, request_meta_data={}, dependent_timings=[]))
+    return tasks, out
+
+
+def _tp_run(drv, TC, calc, pattern, oracle):
+    it = _ModelInterp([drv], oracle)
+
+    def key_of(kf, x, node):
+        return x if kf is None else it.call(kf, [x], {}, node)
+
+    def intercept(f, args, kwargs):
+        if isinstance(f, _T) and f.op == "builtin" and f.args[0] == "sorted" and len(args) == 1 and set(kwargs) <= {"key", "reverse"}:
+            xs = it.iterate(args[0], calc)
+            if xs is None or _opaque(kwargs.get("reverse", False)):
+                return NotImplemented
+            ks = [(key_of(kwargs.get("key"), x, calc), x) for x in xs]
+            if any(_opaque(k) or not isinstance(k, (int, float, str)) for k, _ in ks):
+                return NotImplemented
+            return [x for _, x in sorted(ks, key=lambda kx: kx[0], reverse=bool(kwargs.get("reverse", False)))]
+        if isinstance(f, _T) and (f.path() or "") in ("collections.defaultdict", "defaultdict") and len(args) == 1 and not kwargs and not isinstance(args[0], (_O, _Fn)):
+            return _DefaultDict(lambda: it.call(args[0], [], {}, calc))
+        if isinstance(f, _T) and (f.path() or "") in ("itertools.groupby", "groupby") and args and not isinstance(args[0], _T):
+            xs = it.iterate(args[0], calc)
+            kf = kwargs.get("key", args[1] if len(args) > 1 else None)
+            groups = []  # CONSECUTIVE elements with the same key, as itertools.groupby hands them out
+            for x in xs:
+                k = key_of(kf, x, calc)
+                if groups and (groups[-1][0] is k or (not _opaque(k) and not _opaque(groups[-1][0]) and groups[-1][0] == k)):
+                    groups[-1][1].append(x)
+                else:
+                    groups.append((k, [x]))
+            return groups
+        return NotImplemented
+
+    it.intercept = intercept
+    it.eager_generators = True
+
+    def go():
+        tasks, batch = _tp_samples(pattern)
+        o = it.call(_Cls(TC, drv), [], {}, TC)
+        return tasks, batch, it.call(_Fn(calc, drv, o), [list(batch)], {}, calc)
+
+    return it, go
+
+
+def _o715(chk, drv):
+    """Decided on VALUES: ThroughputCalculator.calculate evaluated on batches of representative samples whose runner reports the throughput itself (every sample then maps to one
+    throughput value carrying the sample's own times and throughput): the result must hold, under each task, exactly one value per sample of that task - for batches in which the
+    samples of several tasks are interleaved as for batches of one task."""
+    TC = drv.cls("ThroughputCalculator")
+    calc = drv.methods(TC).get("calculate")
+    if calc is None:
+        raise AnchorMissing("ThroughputCalculator.calculate")
+    for name, pattern in _TP_BATCHES:
+        key = f"{_D}:ThroughputCalculator.calculate:every-sample-counted:{pattern}"
+        what = f"throughput is computed from all samples of the batch: {name}"
+        try:
+            runs = _explore(lambda oracle: _tp_run(drv, TC, calc, pattern, oracle))
+            bad = []
+            for it, (tasks, batch, ret) in runs:
+                if not isinstance(ret, dict):
+                    raise _Undecided(f"calculate returns {ret!r:.60}")
+                if it.skipped:
+                    raise _Undecided(f"the loop `for ... in {short(it.skipped[0][0].iter, 50)}` runs over a collection that is not modelled")
+                for e in it.effects:  # a call that is not modelled receives samples: what it does with them is not known
+                    if "logg" not in e.path.lower() and any(_mentions(a, s_) for a in e.args + list(e.kwargs.values()) for s_ in batch):
+                        raise _Undecided(f"`{e.path}` (not modelled) receives samples of the batch")
+                for c, t in tasks.items():
+                    vals = [v for k, v in ret.items() if k is t]
+                    vals = vals[0] if vals else []
+                    if not isinstance(vals, list) or any(not isinstance(v, (tuple, list)) for v in vals):
+                        raise _Undecided(f"the throughput values of task {t.name} are {vals!r:.60}")
+                    for s in batch:
+                        if s.f["task"] is not t:
+                            continue
+                        n = sum(1 for v in vals if any(x is s.f["throughput"] or (isinstance(x, float) and x == s.f["throughput"]) for x in v))
+                        if n != 1:
+                            bad.append(f"the sample at position {batch.index(s)} of the batch (task {t.name}, throughput {s.f['throughput']}) yields {n} throughput value(s)"
+                                       + (": it is part of no throughput value" if n == 0 else ""))
+                foreign = [k for k in ret if not any(k is t for t in tasks.values())]
+                if foreign:
+                    raise _Undecided(f"the result is keyed by {foreign[0]!r:.40}")
+        except (_Undecided, _Need) as x:
+            chk.unknown("O7.15", f"ThroughputCalculator.calculate not evaluated on `{name}`: {x}", calc)
+            continue
+        chk.ob("O7.15", what, not bad, calc, "; ".join(list(dict.fromkeys(bad))[:2]) or f"{len(pattern)} samples, one throughput value each under its own task", key=key)
+
+
 def run(chk):
     repo = chk.repo
     drv, met, rc = repo.module(_D), repo.module(_M), repo.module(_R)
@@ -3393,8 +3599,27 @@ def run(chk):
              "the streams' sub-requests never reach the metrics store (or reach it twice)")
     _o713(chk, repo)
 
+    # ---- O7.14 the enqueued sample carries everything add was given -----------------------------------------------------------------------------------------
+    chk.rule("O7.14", "the sample the sampler enqueues for a request holds every value the load generator handed to add - the dependent timings of the request's sub-requests "
+             "included - and answers under the name of a parameter the value of that parameter", 2,
+             "a composite operation (or any runner reporting dependent timings): the service_time records of the sub-requests never reach the metrics store; or records filed "
+             "with the values of another field")
+    _o714(chk, drv)
+
+    # ---- O7.15 throughput from all samples ------------------------------------------------------------------------------------------------------------------
+    chk.rule("O7.15", "throughput is computed from ALL samples of a post-processing round: every sample handed to ThroughputCalculator.calculate contributes exactly once, under its "
+             "own task, also when the samples of several tasks are interleaved in the batch", len(_TP_BATCHES),
+             "a parallel element whose tasks run on different clients / workers: the shipments alternate in the raw list and only the last run of consecutive samples of a task "
+             "is counted - throughput far too low while all latency / service_time records are there")
+    _o715(chk, drv)
+
 
 from sa.selftest import V  # noqa: E402
+
+_V_SAMPLE_TAIL = "                    percent_completed,\n                    dependent_timing,\n                )\n            )\n        except queue.Full"
+_V_SAMPLE_TIMES = "                    latency,\n                    service_time,\n                    processing_time,\n                    throughput,\n"
+_V_GROUPING = ("        samples_per_task = {}\n        # first we group all samples by task (operation).\n        for sample in samples:\n            k = sample.task\n"
+               "            if k not in samples_per_task:\n                samples_per_task[k] = []\n            samples_per_task[k].append(sample)\n")
 
 VARIANTS = [
     V("drain read twice", "break", _D, "                self.send(self.driver_actor, UpdateSamples(self.worker_id, samples))", "                self.send(self.driver_actor, UpdateSamples(self.worker_id, self.sampler.samples))", "O7.2"),
@@ -3873,4 +4098,22 @@ VARIANTS += [
     V("S5 trailing streams flattened by a comprehension", "keep", _RN, _V_JOIN_END,
       "            timings += [t for stream_timings in await asyncio.gather(*streams) for t in stream_timings]\n        return timings\n"),
     V("S5 joined streams forgotten with clear()", "keep", _RN, _V_JOIN_MID, _V_JOIN_MID.replace("streams = []", "streams.clear()")),
+    # O7.14: what add enqueues
+    V("seed m17: the sampler does not hand the dependent timings on to the sample", "break", _D, _V_SAMPLE_TAIL, "                    percent_completed,\n                )\n            )\n        except queue.Full", "O7.14"),
+    V("S6 the sample's constructor forgets the dependent timings", "break", _D, "        self._dependent_timing = dependent_timing\n", "        self._dependent_timing = None\n", "O7.14"),
+    V("S6 latency and service time change places on their way into the sample", "break", _D, "                    meta_data,\n" + _V_SAMPLE_TIMES, "                    meta_data,\n                    service_time,\n                    latency,\n                    processing_time,\n                    throughput,\n", "O7.14"),
+    V("S6 the sample is built without the request's meta data", "break", _D, "                    sample_type,\n                    meta_data,\n                    latency,\n", "                    sample_type,\n                    {},\n                    latency,\n", "O7.14"),
+    V("S6 the dependent timings are handed to the sample by keyword", "keep", _D, _V_SAMPLE_TAIL, "                    percent_completed,\n                    dependent_timing=dependent_timing,\n                )\n            )\n        except queue.Full"),
+    V("S6 the sample's constructor keeps the dependent timings under another private name", "keep", _D, "        self._dependent_timing = dependent_timing\n", "        self._dependent_timing = self._timings_of_sub_requests = dependent_timing\n"),
+    # O7.15: throughput from all samples
+    V("seed m18: samples grouped with itertools.groupby over the batch in arrival order", "break", _D, _V_GROUPING,
+      "        samples_per_task = {task: list(group) for task, group in itertools.groupby(samples, key=lambda s: s.task)}\n", "O7.15"),
+    V("S6 a task's group is overwritten by every sample", "break", _D, "            if k not in samples_per_task:\n                samples_per_task[k] = []\n            samples_per_task[k].append(sample)\n",
+      "            samples_per_task[k] = [sample]\n", "O7.15"),
+    V("S6 only the samples of the batch's first task are grouped", "break", _D, "            k = sample.task\n            if k not in samples_per_task:\n",
+      "            k = sample.task\n            if k is not samples[0].task:\n                continue\n            if k not in samples_per_task:\n", "O7.15"),
+    V("S6 grouping respelled with setdefault", "keep", _D, "            if k not in samples_per_task:\n                samples_per_task[k] = []\n            samples_per_task[k].append(sample)\n",
+      "            samples_per_task.setdefault(k, []).append(sample)\n"),
+    V("S6 groupby over the batch sorted by task first", "keep", _D, _V_GROUPING,
+      "        by_name = lambda s: s.task.name\n        samples_per_task = {group[0].task: group for group in (list(g) for _, g in itertools.groupby(sorted(samples, key=by_name), key=by_name))}\n"),
 ]
